@@ -14,6 +14,7 @@ python3 translate/rs2lean.py /repo lean/RSVerif/Gen/SrcEnvelope.lean || true
 python3 translate/rs2lean_work.py /repo lean/RSVerif/Gen/SrcWork.lean || true
 python3 translate/statics.py /repo lean/RSVerif/Gen/Statics.lean || true
 python3 translate/rs2lean_codec.py /repo lean/RSVerif/Gen/SrcCodec.lean || true
+python3 translate/rs2lean_engine.py /repo lean/RSVerif/Gen/SrcEngine.lean || true
 mods=""
 for f in lean/RSVerif/Properties/C*.lean; do
   m=$(basename "$f" .lean)
@@ -22,7 +23,7 @@ done
 ( cd lean && lake build rsmodel )
 # one property at a time: a module that no longer builds against the current /repo (regenerated inputs)
 # must not keep the others from being checked; its own check reports it
-for m in srcmodel srcwork srccodec $mods; do
+for m in srcmodel srcwork srccodec srcengine $mods; do
   ( cd lean && lake build $m ) || echo "setup: $m did not build; ./check.py reports it"
 done
 echo setup-ok
